@@ -27,6 +27,16 @@
 //     UTF-8 (not representable in the JSON record), subcharts (json:"-").
 //   - Order of List/Query results (sets are compared).
 //
+// Write-back ops (what helm's actions do with the store): "reupdate" obtains a stored release
+// through List / Query / History / Last of the backend under test (labels exactly as returned:
+// the Kubernetes backends hand out the system labels merged in), changes its status and Updates it;
+// "upgrade" obtains the last revision, creates the next revision with the obtained label map
+// carried over (action.Upgrade's mergeCustomLabels), marks the old one superseded and the new one
+// deployed/failed via Update, and then queries by status / version / name. The reference treats
+// the six system keys in a written release's Labels as not being user labels: they must not
+// influence matching. For these two ops the harness deliberately modifies a release it got from
+// the driver, as the actions do (everywhere else it never touches a release after handing it over).
+//
 // After a backend's answer to a MUTATING call differs from the reference (e.g. a Delete that
 // wrongly fails) its state has diverged; the violation is reported once and the backend is no longer
 // compared for the rest of that sequence (counted as backend_desynced) so that one cause does not
@@ -63,7 +73,7 @@ func init() {
 	core.Register(&core.Prop{
 		ID:    "C10",
 		Level: "exploration",
-		Rule: "call sequences of 10-60 calls (Create/Get/Update/Delete/List/Query at driver level through storage.Storage, plus History/Last/Deployed/DeployedAll) over 2-4 generated release names x revisions 1-5, " +
+		Rule: "call sequences of 10-60 calls (Create/Get/Update/Delete/List/Query at driver level through storage.Storage, plus History/Last/Deployed/DeployedAll, plus write-backs of releases OBTAINED from List/Query/History/Last: status change + Update, and upgrade-shaped sequences that carry the obtained label map into a new revision, each followed by status/version/name queries) over 2-4 generated release names x revisions 1-5, " +
 			"executed in lock-step on memory, secrets+configmaps on client-go's fake clientset, secrets+configmaps on the simulated API server, and a reference map; releases are generated (unicode/multi-MB manifests, nested config, hooks, chart with files/schema/lock/dependencies, user labels, nine statuses, zero/non-UTC timestamps). " +
 			"distinct_nontrivial counts distinct (name shapes, kinds of failing calls, kinds of multi-match queries) of sequences that contain at least one failing call and one query with >= 2 matches.",
 		Assumptions: []string{
@@ -101,6 +111,8 @@ type call struct {
 	CSeed  int64
 	Filter string            // list: all | status=<s> | name=<n> | minrev=<k>
 	Labels map[string]string // query
+	Via    string            // reupdate: list | query | history | last (how the release is obtained)
+	Extra  bool              // upgrade: add one more user label to the carried label map
 }
 
 func (c call) String() string {
@@ -113,6 +125,10 @@ func (c call) String() string {
 		return "list(" + c.Filter + ")"
 	case "query":
 		return fmt.Sprintf("query(%v)", c.Labels)
+	case "reupdate":
+		return fmt.Sprintf("reupdate(%s.v%d obtained via %s, status:=%s)", c.Name, c.Rev, c.Via, c.Status)
+	case "upgrade":
+		return fmt.Sprintf("upgrade(%s: last -> superseded, next revision content=%d labels carried extra=%v status:=%s)", c.Name, c.CSeed, c.Extra, c.Status)
 	}
 	return c.Op + "(" + c.Name + ")"
 }
@@ -224,8 +240,21 @@ func genSeq(seed int64) (names []string, calls []call) {
 				l["version"] = fmt.Sprint(1 + rng.Intn(maxRev))
 			}
 			calls = append(calls, call{Op: "query", Labels: l})
-		default:
+		case r < 92:
 			calls = append(calls, call{Op: pick(rng, []string{"history", "last", "deployed", "deployedall"}), Name: pick(rng, append([]string{"no-such-release"}, names...))})
+		case r < 96:
+			k := hitKey(90)
+			calls = append(calls, call{Op: "reupdate", Name: k.n, Rev: k.r, Via: pick(rng, []string{"list", "query", "history", "last"}), Status: status()})
+		default:
+			n := pick(rng, names)
+			if k, ok := presentKey(); ok && rng.Intn(4) > 0 {
+				n = k.n
+			}
+			st := release.StatusDeployed
+			if rng.Intn(4) == 0 {
+				st = release.StatusFailed
+			}
+			calls = append(calls, call{Op: "upgrade", Name: n, Status: st, CSeed: rng.Int63(), Extra: rng.Intn(2) == 0})
 		}
 	}
 	return
@@ -380,6 +409,8 @@ type seqRun struct {
 	failOps map[string]bool
 	multiQ  map[string]bool
 	step    int
+	cseed   map[rkey]int64 // content seed of every stored reference release (to rebuild it with another status)
+	touched []rkey         // keys changed by the current call (read back on every backend afterwards)
 }
 
 func (s *seqRun) ctx(b *backend, c call) string {
@@ -477,6 +508,8 @@ func (s *seqRun) exec(c call) {
 		}
 		s.res.Stat("calls_compared_"+b.name, 1)
 		switch c.Op {
+		case "reupdate", "upgrade":
+			s.execWriteBack(b, c)
 		case "create":
 			var err error
 			if core.Guard(s.res, b.name+" Create", func() { err = b.st.Create(mkRelease(c.Name, ns, c.Rev, c.Status, c.CSeed)) }) {
@@ -636,6 +669,140 @@ func (s *seqRun) exec(c call) {
 	}
 }
 
+func copyLabels(l map[string]string) map[string]string {
+	out := map[string]string{}
+	for k, v := range l {
+		out[k] = v
+	}
+	return out
+}
+
+// refLast is the highest stored revision of name in the reference (nil if none).
+func (s *seqRun) refLast(name string) *release.Release {
+	var last *release.Release
+	for _, r := range s.ref {
+		if r.Name == name && (last == nil || r.Version > last.Version) {
+			last = r
+		}
+	}
+	return last
+}
+
+// rebuild returns a fresh reference release for key with another status and the given user labels.
+func (s *seqRun) rebuild(k rkey, st release.Status, labels map[string]string) *release.Release {
+	r := mkRelease(k.name, ns, k.rev, st, s.cseed[k])
+	r.Labels = userLabels(labels)
+	return r
+}
+
+// target resolves the key a reupdate call works on (via=last: the highest revision of the name).
+func (s *seqRun) target(c call) (rkey, bool) {
+	if c.Via == "last" {
+		if l := s.refLast(c.Name); l != nil {
+			return rkey{l.Name, l.Version}, true
+		}
+		return rkey{}, false
+	}
+	k := rkey{c.Name, c.Rev}
+	_, ok := s.ref[k]
+	return k, ok
+}
+
+// obtain fetches the stored release k from the backend the way an action would.
+func (s *seqRun) obtain(b *backend, via string, k rkey) (got *release.Release, err error) {
+	var rs []*release.Release
+	switch via {
+	case "list":
+		rs, err = b.st.List(func(r *release.Release) bool { return r.Name == k.name })
+	case "query":
+		rs, err = b.st.Query(map[string]string{"name": k.name, "owner": "helm", "version": fmt.Sprint(k.rev)})
+	case "history":
+		rs, err = b.st.History(k.name)
+	default:
+		return b.st.Last(k.name)
+	}
+	if err != nil {
+		return nil, err
+	}
+	for _, r := range rs {
+		if r != nil && r.Name == k.name && r.Version == k.rev {
+			return r, nil
+		}
+	}
+	return nil, fmt.Errorf("harness: %s did not return %s.v%d (%d results)", via, k.name, k.rev, len(rs))
+}
+
+func (s *seqRun) execWriteBack(b *backend, c call) {
+	switch c.Op {
+	case "reupdate":
+		k, ok := s.target(c)
+		if !ok {
+			return
+		}
+		var got *release.Release
+		var err error
+		if core.Guard(s.res, b.name+" obtain+Update", func() {
+			if got, err = s.obtain(b, c.Via, k); err == nil {
+				if got.Info == nil {
+					err = errors.New("obtained release has no info")
+					return
+				}
+				got.Info.Status = c.Status
+				err = b.st.Update(got)
+			}
+		}) {
+			b.desynced = true
+			return
+		}
+		if err != nil {
+			s.add(b, "write-back-failed", "Update of a release obtained via "+c.Via+": "+errClass(err), "%v | %s", err, s.ctx(b, c))
+			b.desynced = true
+		}
+	case "upgrade":
+		rl := s.refLast(c.Name)
+		if rl == nil {
+			return
+		}
+		var err error
+		stepName := ""
+		if core.Guard(s.res, b.name+" upgrade-shaped write-back", func() {
+			var last *release.Release
+			stepName = "Last"
+			if last, err = b.st.Last(c.Name); err != nil {
+				return
+			}
+			if last == nil || last.Version != rl.Version || last.Info == nil {
+				err = fmt.Errorf("Last returned %s, reference has v%d", briefRel(last), rl.Version)
+				return
+			}
+			next := mkRelease(c.Name, ns, rl.Version+1, release.StatusPendingUpgrade, c.CSeed)
+			next.Labels = copyLabels(last.Labels) // action.Upgrade: mergeCustomLabels(lastRelease.Labels, u.Labels)
+			if c.Extra {
+				next.Labels["carried"] = "yes"
+			}
+			stepName = "Create(next revision)"
+			if err = b.st.Create(next); err != nil {
+				return
+			}
+			stepName = "Update(previous revision -> superseded)"
+			last.Info.Status = release.StatusSuperseded
+			if err = b.st.Update(last); err != nil {
+				return
+			}
+			stepName = "Update(next revision -> final status)"
+			next.Info.Status = c.Status
+			err = b.st.Update(next)
+		}) {
+			b.desynced = true
+			return
+		}
+		if err != nil {
+			s.add(b, "write-back-failed", "upgrade-shaped sequence, step "+stepName+": "+errClass(err), "%v | %s", err, s.ctx(b, c))
+			b.desynced = true
+		}
+	}
+}
+
 func (s *seqRun) auditAfterFail(b *backend, c call) {
 	if !b.desynced {
 		s.audit(b, c, "failing "+c.Op)
@@ -662,17 +829,47 @@ func labelKeySet(l map[string]string) string {
 func (s *seqRun) applyRef(c call) {
 	key := rkey{c.Name, c.Rev}
 	_, has := s.ref[key]
+	s.touched = s.touched[:0]
 	switch c.Op {
+	case "create", "update", "delete":
+		s.touched = append(s.touched, key)
+	}
+	switch c.Op {
+	case "reupdate":
+		if k, ok := s.target(c); ok {
+			s.ref[k] = s.rebuild(k, c.Status, s.ref[k].Labels)
+			s.touched = append(s.touched, k)
+			s.res.Stat("write_back_updates/"+c.Via, 1)
+		} else {
+			s.res.Stat("write_back_skipped_nothing_stored", 1)
+		}
+	case "upgrade":
+		if rl := s.refLast(c.Name); rl != nil {
+			prev, next := rkey{rl.Name, rl.Version}, rkey{rl.Name, rl.Version + 1}
+			carried := copyLabels(userLabels(rl.Labels))
+			if c.Extra {
+				carried["carried"] = "yes"
+			}
+			s.ref[prev] = s.rebuild(prev, release.StatusSuperseded, rl.Labels)
+			s.cseed[next] = c.CSeed
+			s.ref[next] = s.rebuild(next, c.Status, carried)
+			s.touched = append(s.touched, prev, next)
+			s.res.Stat("upgrade_shaped_write_backs", 1)
+		} else {
+			s.res.Stat("write_back_skipped_nothing_stored", 1)
+		}
 	case "create":
 		if has {
 			s.failOps["create-existing"] = true
 			s.res.Stat("failing_calls_expected", 1)
 		} else {
 			s.ref[key] = mkRelease(c.Name, ns, c.Rev, c.Status, c.CSeed)
+			s.cseed[key] = c.CSeed
 		}
 	case "update":
 		if has {
 			s.ref[key] = mkRelease(c.Name, ns, c.Rev, c.Status, c.CSeed)
+			s.cseed[key] = c.CSeed
 		} else {
 			s.failOps["update-missing"] = true
 			s.res.Stat("failing_calls_expected", 1)
@@ -685,6 +882,7 @@ func (s *seqRun) applyRef(c call) {
 	case "delete":
 		if has {
 			delete(s.ref, key)
+			delete(s.cseed, key)
 		} else {
 			s.failOps["delete-missing"] = true
 			s.res.Stat("failing_calls_expected", 1)
@@ -724,7 +922,7 @@ func runSeq(res *core.Result, seed int64, verbose bool) {
 			return
 		}
 	}
-	s := &seqRun{res: res, seed: seed, names: names, calls: calls, ref: refKV{}, bks: mkBackends(), verbose: verbose, failOps: map[string]bool{}, multiQ: map[string]bool{}}
+	s := &seqRun{res: res, seed: seed, names: names, calls: calls, ref: refKV{}, bks: mkBackends(), verbose: verbose, failOps: map[string]bool{}, multiQ: map[string]bool{}, cseed: map[rkey]int64{}}
 	if verbose {
 		fmt.Printf("sequence seed %d names %q (%d calls)\n", seed, names, len(calls))
 	}
@@ -734,31 +932,58 @@ func runSeq(res *core.Result, seed int64, verbose bool) {
 		s.countMatches(c)
 		s.exec(c) // judged against the reference state BEFORE the call
 		s.applyRef(c)
-		// after a successful mutation the touched key must read back equal on every backend
-		if c.Op == "create" || c.Op == "update" || c.Op == "delete" {
+		// after a mutation every touched key must read back equal on every backend
+		if len(s.touched) > 0 {
 			s.step = i + 1
 			for _, b := range s.bks {
 				if b.desynced {
 					continue
 				}
-				want, has := s.ref[rkey{c.Name, c.Rev}]
-				var got *release.Release
-				var err error
-				if core.Guard(res, b.name+" Get", func() { got, err = b.st.Get(c.Name, c.Rev) }) {
-					continue
-				}
-				switch {
-				case has && err != nil:
-					s.add(b, "existing-key-failed", "Get "+keyShape(c)+" err="+errClass(err), "Get right after %s failed: %v | %s", c, err, s.ctx(b, c))
-				case has:
-					if shape, d := relDiff(want, got); shape != "" {
-						s.add(b, "read-back-differs", "Get: "+shape, "right after %s: %s | %s", c, d, s.ctx(b, c))
-					} else {
-						res.Stat("round_trips_equal", 1)
+				for _, k := range s.touched {
+					kc := call{Op: c.Op, Name: k.name, Rev: k.rev}
+					want, has := s.ref[k]
+					var got *release.Release
+					var err error
+					if core.Guard(res, b.name+" Get", func() { got, err = b.st.Get(k.name, k.rev) }) {
+						continue
 					}
-				case err == nil:
-					s.add(b, "missing-key-succeeded", "Get "+keyShape(c), "Get right after %s returned a release for a key that is not stored | %s", c, s.ctx(b, c))
+					switch {
+					case has && err != nil:
+						s.add(b, "existing-key-failed", "Get "+keyShape(kc)+" err="+errClass(err), "Get of %s.v%d right after %s failed: %v | %s", k.name, k.rev, c, err, s.ctx(b, c))
+					case has:
+						if shape, d := relDiff(want, got); shape != "" {
+							s.add(b, "read-back-differs", "Get: "+shape, "%s.v%d right after %s: %s | %s", k.name, k.rev, c, d, s.ctx(b, c))
+						} else {
+							res.Stat("round_trips_equal", 1)
+						}
+					case err == nil:
+						s.add(b, "missing-key-succeeded", "Get "+keyShape(kc), "Get right after %s returned a release for a key that is not stored | %s", c, s.ctx(b, c))
+					}
 				}
+			}
+			s.step = i
+		}
+		// after a write-back the selection labels must follow the release: query by status / version / name
+		if (c.Op == "reupdate" || c.Op == "upgrade") && len(s.touched) > 0 {
+			var follow []call
+			for _, k := range s.touched {
+				r := s.ref[k]
+				follow = append(follow,
+					call{Op: "query", Labels: map[string]string{"name": k.name, "owner": "helm", "status": string(r.Info.Status)}},
+					call{Op: "query", Labels: map[string]string{"name": k.name, "version": fmt.Sprint(k.rev)}},
+					call{Op: "query", Labels: map[string]string{"status": string(r.Info.Status)}})
+			}
+			follow = append(follow,
+				call{Op: "query", Labels: map[string]string{"name": c.Name, "status": "deployed"}},
+				call{Op: "query", Labels: map[string]string{"status": "superseded"}},
+				call{Op: "query", Labels: map[string]string{"status": "pending-upgrade"}},
+				call{Op: "history", Name: c.Name}, call{Op: "deployed", Name: c.Name}, call{Op: "deployedall", Name: c.Name}, call{Op: "last", Name: c.Name},
+				call{Op: "list", Filter: "name=" + c.Name})
+			s.step = i + 1
+			for _, f := range follow {
+				s.countMatches(f)
+				s.exec(f)
+				res.Stat("write_back_followup_queries", 1)
 			}
 			s.step = i
 		}
@@ -843,6 +1068,10 @@ func post(a *core.Agg) string {
 		if a.Stats["calls_compared_"+b] < 1000 {
 			return fmt.Sprintf("backend %s: only %d calls compared", b, a.Stats["calls_compared_"+b])
 		}
+	}
+	wb := a.Stats["write_back_updates/list"] + a.Stats["write_back_updates/query"] + a.Stats["write_back_updates/history"] + a.Stats["write_back_updates/last"]
+	if wb < 50 || a.Stats["upgrade_shaped_write_backs"] < 50 {
+		return fmt.Sprintf("too few write-back sequences: %d updates of obtained releases, %d upgrade-shaped sequences", wb, a.Stats["upgrade_shaped_write_backs"])
 	}
 	if a.Stats["failing_calls_expected"] < 100 || a.Stats["multi_match_queries"] < 100 || a.Stats["round_trips_equal"] < 1000 {
 		return fmt.Sprintf("too few relevant events: failing calls %d, multi-match queries %d, equal round trips %d", a.Stats["failing_calls_expected"], a.Stats["multi_match_queries"], a.Stats["round_trips_equal"])
